@@ -405,7 +405,7 @@ def name_cleaner(name: str) -> str:
     """
     while (
         groups := cast(
-            Match[str], re.match(r"(^[A-Za-z_][-A-Za-z0-9._]*)?(.*)$", name)
+            Match[str], re.match(r"(^[A-Za-z_][-A-Za-z0-9._]*)?(.*)$", name, re.DOTALL)
         ).groups()
     )[1]:
         bad_char = groups[1][0]
